@@ -56,9 +56,10 @@ class Spheres(Scatterers):
     '''
 
     def __init__(self, scatterers, warn=True):
-        scatterers = ensure_listlike(scatterers)
+        # a list: an iterator would be used up by the check below
+        scatterers = list(ensure_listlike(scatterers))
         self.warn = warn
-        for s in ensure_listlike(scatterers):
+        for s in scatterers:
             if not isinstance(s, Sphere):
                 raise InvalidScatterer(self,
                         "Spheres expects all component " +
